@@ -106,7 +106,7 @@ def run_spec(spec, rep, tier, seed, coq=None):
                 concrete += 1
                 rep.violation(what, {"kind": "input", "case": c, "impl_output": i, "model_output": m,
                                      "how_to_run": "tools/check.py --property %s --replay <this file>" % pid})
-        if i != m and "UNSUPPORTED-BY-MODEL" not in m:
+        if i != m and "UNSUPPORTED-BY-MODEL" not in m and m != "IMPL-ONLY":
             mismatches.append((c, i, m))
     for c, i, what in spec.post(cases, impl, model):
         k = spec.known(c, i, None, what)
